@@ -93,14 +93,14 @@ fn subs() -> Vec<Box<dyn DynSub>> {
         Box::new(Sub {
             name: "history",
             strategy: strat_clean,
-            cases: (300, 15000),
+            cases: (3000, 75000),
             check,
             max_shrink_iters: 6000,
         }),
         Box::new(Sub {
             name: "partial-overlap",
             strategy: strat_partial,
-            cases: (100, 4000),
+            cases: (1000, 25000),
             check,
             max_shrink_iters: 6000,
         }),
@@ -587,40 +587,8 @@ fn check(case: &Case, obs: &mut Obs) -> Verdict {
         };
         trace.push(format!("#{} {:?}", i, op));
         let ctxt = |trace: &Vec<String>| trace.join("; ");
-        // metamorphic: remove undoes insert (on a clone, before the real edit)
-        if let COp::Insert { sheet, axis, book_level, by_letter, p, n } = &op {
-            let undo = COp::Remove {
-                sheet: *sheet,
-                axis: *axis,
-                book_level: *book_level,
-                by_letter: *by_letter,
-                p: *p,
-                n: *n,
-            };
-            let r = guard(|| {
-                let mut c = book.clone();
-                apply_lib(&mut c, &op);
-                apply_lib(&mut c, &undo);
-                c
-            });
-            match r {
-                Err(pn) => {
-                    return Verdict::fail(
-                        format!("{}+undo/panic:{}", kind, pn.site()),
-                        format!("{} ; history: {}", pn.short(), ctxt(&trace)),
-                    )
-                }
-                Ok(c) => {
-                    if let Some((si, d)) = compare_book(&c, &model, *sheet) {
-                        let scope = if si != *sheet { "other-sheet" } else { "edited-sheet" };
-                        return Verdict::fail(
-                            format!("undo/{}/{}/{}/{}", kind, scope, d.obj, d.mode),
-                            format!("remove(p,n) after insert(p,n) is not the identity on sheet {}: {} ; history: {}", si, d.detail, ctxt(&trace)),
-                        );
-                    }
-                }
-            }
-        }
+        // snapshot for the metamorphic check (remove undoes insert), judged after the edit itself
+        let pre = if matches!(op, COp::Insert { .. }) { Some((book.clone(), model.clone())) } else { None };
         // the edit itself
         if let Err(pn) = guard(|| apply_lib(&mut book, &op)) {
             let feature = panic_feature(&model.sheets[op_sheet(&op)], &op);
@@ -652,6 +620,40 @@ fn check(case: &Case, obs: &mut Obs) -> Verdict {
                 key,
                 format!("after op #{} on sheet {}, sheet {} differs from the reference grid: {} ; history: {}", i, target, si, d.detail, ctxt(&trace)),
             );
+        }
+        // metamorphic: remove(p,n) after insert(p,n) restores the pre-insert projection
+        if let (Some((snapshot, model0)), COp::Insert { sheet, axis, book_level, by_letter, p, n }) = (pre, &op) {
+            let undo = COp::Remove {
+                sheet: *sheet,
+                axis: *axis,
+                book_level: *book_level,
+                by_letter: *by_letter,
+                p: *p,
+                n: *n,
+            };
+            let r = guard(|| {
+                let mut c = snapshot;
+                apply_lib(&mut c, &op);
+                apply_lib(&mut c, &undo);
+                c
+            });
+            match r {
+                Err(pn) => {
+                    return Verdict::fail(
+                        format!("{}+undo/panic:{}", kind, pn.site()),
+                        format!("{} ; history: {}", pn.short(), ctxt(&trace)),
+                    )
+                }
+                Ok(c) => {
+                    if let Some((si, d)) = compare_book(&c, &model0, *sheet) {
+                        let scope = if si != *sheet { "other-sheet" } else { "edited-sheet" };
+                        return Verdict::fail(
+                            format!("undo/{}/{}/{}/{}", kind, scope, d.obj, d.mode),
+                            format!("remove(p,n) after insert(p,n) is not the identity on sheet {}: {} ; history: {}", si, d.detail, ctxt(&trace)),
+                        );
+                    }
+                }
+            }
         }
         // move leaves the source rectangle (minus the destination) empty
         if let COp::Move { sheet, rect, dr, dc } = &op {
